@@ -33,6 +33,19 @@ check('C02', 'rapidcheck lock-step differential against an independent ISA refer
       'Exploration: absence is not shown.',
       'DESIGN.md 6 C02')
 
+check('C03', 'rapidcheck lock-step differential: Verilated RTL against the ISA reference model, one instruction per clock',
+      'The Verilated hex design (--public-flat-rw) is clocked next to refisa: exhaustive 256-byte grid x generated reachable states with directly '
+      'planted registers/memory, generated sequences and shipped programs from a proper reset. Registers, write port, written word, '
+      'o_syscall_valid/o_syscall compared per clock, memory below 200000 words per case.',
+      'Trusted: refisa; Verilator 5.006 two-state semantics. Domain restricted to the range both implementations provide and to oreg values reachable '
+      'from reset (DESIGN 6 C03). System calls serviced by the harness.',
+      'DESIGN.md 6 C03')
+check('C16', 'rapidcheck differential between Verilated models of processor.sv, verilog/processor.v and synth/processor.v',
+      'Three processor-only models share registers, fetched byte, read data and reset for all 256 bytes x generated states; outputs before the edge and '
+      'registers after it must agree. Two full designs run sequences and shipped programs in lock-step from reset. Token streams of the two .v copies compared.',
+      'Trusted: Verilator 5.006 two-state simulation (x-optimism differences invisible).',
+      'DESIGN.md 6 C16')
+
 NOT_YET = {}
 
 def main():
